@@ -1080,7 +1080,16 @@ impl<'a> Walker<'a> {
                             // an integer that is the length of a later array is drawn as a count
                             if lengths.contains_key(&f.name) && Self::int_type(name).is_some() && f.value.is_none() {
                                 let (w, _) = Self::int_type(name).unwrap();
-                                let c = if self.is_enc() { self.draw_count(&fpath, w * 8) } else { 0 };
+                                let mut c = if self.is_enc() { self.draw_count(&fpath, w * 8) } else { 0 };
+                                // `valid_range`: counts outside are not valid messages
+                                if let Some((a, b)) = f.tags.get("valid_range").and_then(|r| {
+                                    let mut it = r.split_whitespace().map(|x| x.parse::<usize>().ok());
+                                    Some((it.next()??, it.next()??))
+                                }) {
+                                    if self.is_enc() && (c < a || c > b) {
+                                        c = a + (c - a.min(c)) % (b - a + 1);
+                                    }
+                                }
                                 let v = self.int_leaf(&fpath, w, false, false, Role::LengthOf, name, None, false, c as i128);
                                 env.insert(f.name.clone(), EnvVal::Int(v));
                                 continue;
